@@ -26,7 +26,8 @@
 EXTENDS TransportCore, TLC, Json
 
 CONSTANTS MaxPlugins,    \* 0..3
-          First,         \* "any", or a plug-in kind the sequence must start with, or "short" = sequences of length <= 1
+          First,         \* "any" (all sequences of <= MaxPlugins), "short" (length <= 1), or a plug-in kind: the
+                         \* sequences of length exactly MaxPlugins that start with it (partition for big runs)
           Variant,       \* "as_is" | "fixed"
           BodyTied,      \* TRUE: body present iff caller cookies absent (halves the family); FALSE: independent
           Emit           \* print SCEN lines
@@ -40,7 +41,7 @@ NoWire == [headers |-> <<>>, query |-> <<>>, cookies |-> <<>>, body |-> "", refr
 
 FirstOK(p) == CASE First = "any"   -> TRUE
                 [] First = "short" -> Len(p) <= 1
-                [] OTHER           -> Len(p) >= 2 /\ p[1] = First
+                [] OTHER           -> Len(p) = MaxPlugins /\ p[1] = First
 
 Init ==
   /\ \E p \in {q \in PlugSeqs(MaxPlugins) : FirstOK(q)} :
@@ -120,7 +121,7 @@ TypeOK ==
   /\ pc \in {"defaults", "perrequest", "auth", "shortcut", "send", "sent", "done"}
   /\ Len(pending) <= Len(sc.plugs)
 
-Sent == pc \in {"sent", "done"}
+Sent == pc = "done"      \* nothing changes the wire between Send and Judge: judging the final state suffices
 
 \* the step-wise machine and the closed-form model of the code path agree (the monitor uses the closed form)
 MachineIsModel == Sent => wire = ModelWire(Variant, cfg)
